@@ -512,3 +512,94 @@ func bt4StagedIndexed(p *core.Prog, rep *core.Report) {
 		rep.Unk("VAC", "BT4", "expected >= 2 stores to the staged slice", "", fmt.Sprintf("found %d", n))
 	}
 }
+
+const (
+	bbGet = "github.com/valyala/bytebufferpool.Get"
+	bbPut = "github.com/valyala/bytebufferpool.Put"
+)
+
+// pool3BufferSingleRelease: the same single-release discipline for the pooled byte buffers of package datafile.
+// Ownership is split between callers and callees there (the single-record writer releases the buffer it is handed;
+// the readers' callers release theirs with a defer), so the rule is interprocedural: a function that MAY release a
+// buffer it received as a parameter counts as a release at each of its call sites.
+func pool3BufferSingleRelease(p *core.Prog, rep *core.Report) {
+	rep.Rule("POOL3", "single release (byte buffers): in every function that takes a buffer from bytebufferpool, the buffer is released at most once per path, counting bytebufferpool.Put (direct or deferred) and every call that passes it to a library function which may release that parameter; a second release puts one buffer into the pool twice and two later users (two readers, or a reader and a batch flush) share it")
+	release := map[*ssa.Function]map[int]bool{}
+	for _, fn := range p.LibFuncs() {
+		for _, b := range fn.Blocks {
+			for _, in := range b.Instrs {
+				if ci, ok := in.(ssa.CallInstruction); ok && core.StaticCalleeIs(ci.Common(), bbPut) && len(ci.Common().Args) > 0 {
+					if pi := paramIndex(fn, core.Unwrap(ci.Common().Args[0])); pi >= 0 {
+						if release[fn] == nil {
+							release[fn] = map[int]bool{}
+						}
+						release[fn][pi] = true
+					}
+				}
+			}
+		}
+	}
+	n := 0
+	for _, fn := range p.LibFuncs() {
+		var gets []ssa.Value
+		for _, b := range fn.Blocks {
+			for _, in := range b.Instrs {
+				if c, ok := in.(*ssa.Call); ok && core.StaticCalleeIs(c.Common(), bbGet) {
+					gets = append(gets, c)
+				}
+			}
+		}
+		if len(gets) == 0 {
+			continue
+		}
+		n++
+		var bad []string
+		eng := core.NewEngine(p, core.Hooks{
+			Name:   "POOL3",
+			Follow: func(f *ssa.Function) bool { return false },
+			Step: func(x *core.Exec, in ssa.Instruction, a core.AState) ([]core.StepOut, bool) {
+				ci, ok := in.(ssa.CallInstruction)
+				if !ok {
+					return nil, false
+				}
+				c := ci.Common()
+				callee := c.StaticCallee()
+				var bufs []ssa.Value
+				how := ""
+				if core.StaticCalleeIs(c, bbPut) && len(c.Args) > 0 {
+					bufs = append(bufs, core.Unwrap(c.Args[0]))
+					how = "bytebufferpool.Put"
+				} else if rs, ok := release[callee]; ok && callee != nil {
+					for pi := range rs {
+						if pi < len(c.Args) {
+							bufs = append(bufs, core.Unwrap(c.Args[pi]))
+							how = core.FuncKey(callee) + " (which may release its parameter)"
+						}
+					}
+				}
+				if len(bufs) == 0 {
+					return nil, false
+				}
+				out := a
+				for _, buf := range bufs {
+					for i, g := range gets {
+						if sameOriginLoose(buf, g) {
+							k := fmt.Sprintf("r%d,", i)
+							if strings.Contains(out, k) {
+								bad = append(bad, "the buffer taken from the pool at "+p.InstrPos(g.(ssa.Instruction))+" is released a second time at "+p.InstrPos(in)+" through "+how)
+							} else {
+								out += k
+							}
+						}
+					}
+				}
+				return []core.StepOut{{A: out}}, true
+			},
+		})
+		eng.Run(fn, "", "")
+		rep.Check(len(bad) == 0, "POOL3", "single-release:"+core.FuncKey(fn), "each pooled byte buffer is released at most once per path", p.Pos(fn.Pos()), strings.Join(sortedStr(bad), "; "), true)
+	}
+	if n < 3 {
+		rep.Unk("VAC", "POOL3", "expected >= 3 functions taking byte buffers from the pool", "", fmt.Sprintf("found %d", n))
+	}
+}
